@@ -14,7 +14,8 @@ VARS = {"c01": None,
 
 
 def run(ck):
-    cpucheck.run(ck, "C01", "cpu-c01", NOTE["c01"], variants=VARS["c01"])
+    cpucheck.run(ck, "C01", "cpu-c01", NOTE["c01"], variants=VARS["c01"],
+                 theorems=["MajoranaVerif.Props.C01"] if "C01" == "C01" else None)
 
 
 def replay(ck, path):
